@@ -148,6 +148,16 @@ impl SubCheck for Num {
         both!("from_isize", isize::try_from(v), Weekday::from_isize, Month::from_isize);
         both!("from_i128", Ok::<i128, ()>(v), Weekday::from_i128, Month::from_i128);
         both!("from_u128", u128::try_from(v), Weekday::from_u128, Month::from_u128);
+        // beyond 64 bits: the same low bits, another number
+        for k in [1i128, -1, 3] {
+            let big = v + (k << 64);
+            ensure_eq!(call("Weekday::from_i128", || Weekday::from_i128(big))?, None, "Weekday::from_i128({big})");
+            ensure_eq!(call("Month::from_i128", || Month::from_i128(big))?, None, "Month::from_i128({big})");
+            if let Ok(ub) = u128::try_from(big) {
+                ensure_eq!(call("Weekday::from_u128", || Weekday::from_u128(ub))?, None, "Weekday::from_u128({ub})");
+                ensure_eq!(call("Month::from_u128", || Month::from_u128(ub))?, None, "Month::from_u128({ub})");
+            }
+        }
         if let Ok(b) = u8::try_from(v) {
             ensure_eq!(Weekday::try_from(b).ok(), wd_exp, "Weekday::try_from({b}u8)");
             ensure_eq!(Month::try_from(b).ok(), mo_exp, "Month::try_from({b}u8)");
@@ -365,6 +375,17 @@ impl SubCheck for SetIter {
         for _ in 0..back { it.next_back(); rest.pop_back(); }
         ensure_eq!(call("last after steps", || it.clone().last())?, rest.back().copied(), "last() after {front} front and {back} back steps of set {a:07b} from {start}");
         ensure_eq!(call("nth after steps", || it.clone().nth(1))?, rest.get(1).copied(), "nth(1) after steps");
+        // a skip from either end leaves exactly the members it did not pass
+        for (back, j) in [(true, 0usize), (true, 1), (false, 1), (true, 2)] {
+            let mut it2 = it.clone();
+            let mut rest2 = rest.clone();
+            let got = if back { it2.nth_back(j) } else { it2.nth(j) };
+            let mut exp = None;
+            for _ in 0..=j { exp = if back { rest2.pop_back() } else { rest2.pop_front() }; if exp.is_none() { break; } }
+            ensure_eq!(got, exp, "{}({j}) after steps of set {a:07b} from {start}", if back { "nth_back" } else { "nth" });
+            ensure_eq!(it2.len(), rest2.len(), "len() after {}({j})", if back { "nth_back" } else { "nth" });
+            ensure_eq!(it2.collect::<Vec<_>>(), rest2.iter().copied().collect::<Vec<_>>(), "members left after {}({j}) of set {a:07b} from {start}", if back { "nth_back" } else { "nth" });
+        }
         ensure_eq!(call("collect after steps", || it.collect::<Vec<_>>())?, rest.iter().copied().collect::<Vec<_>>(), "remaining members after steps");
         let _ = (wd_idx(WD[0]), mo_idx(MONTHS[0]));
         Ok(())
